@@ -20,9 +20,22 @@ func clonePlan(p *Plan) *Plan {
 // budget caps the number of candidate executions.
 func ShrinkPlan(t *testing.T, def propDef, plan *Plan, assertion string, budget int) (*Plan, int) {
 	runs := 0
+	protected := func(p *Plan) int {
+		n := 0
+		for i := range p.Steps {
+			if def.KeepStep != nil && def.KeepStep(&p.Steps[i]) {
+				n++
+			}
+		}
+		return n
+	}
+	mustKeep := protected(plan)
 	fails := func(p *Plan) bool {
 		if runs >= budget {
 			return false
+		}
+		if protected(p) != mustKeep {
+			return false // the candidate dropped a step without which the plan means something else
 		}
 		runs++
 		var res *RunResult
@@ -127,6 +140,9 @@ func ShrinkPlan(t *testing.T, def propDef, plan *Plan, assertion string, budget 
 			return true
 		})
 		try(func(p *Plan) bool {
+			if def.KeepStep != nil && def.KeepStep(&p.Steps[i]) {
+				return false // the skeleton keeps its timing as well
+			}
 			if p.Steps[i].GapUS <= 1000 {
 				return false
 			}
